@@ -56,6 +56,10 @@ pub fn try_answer_left_neighbor<Node>(
         return;
     };
 
+    #[cfg(feature = "verif")]
+    if pending_request.is_none() {
+        crate::verif::sched::worker_point_g(crate::verif::sched::BEATREE_WORKERS, "ext.poll-left", &|| true);
+    }
     let request = match pending_request.take() {
         Some(r) => r,
         None => match left_neighbor.rx.try_recv() {
@@ -174,9 +178,15 @@ pub fn request_range_extension<Node>(
     let (tx, rx) = crossbeam_channel::unbounded();
     let request = ExtendRangeRequest { tx };
 
+    #[cfg(feature = "verif")]
+    crate::verif::sched::worker_point_g(crate::verif::sched::BEATREE_WORKERS, "ext.request", &|| true);
     // UNWRAP: right neighbor never drops until left neighbor is done.
     right_neighbor.tx.send(request).unwrap();
 
+    #[cfg(feature = "verif")]
+    crate::verif::sched::worker_point_g(crate::verif::sched::BEATREE_WORKERS, "ext.wait-response", &|| {
+        crate::verif::sched::recv_ready(&rx)
+    });
     // UNWRAP: right neighbor never drops until left neighbor is done.
     let mut response = rx.recv().unwrap();
 
